@@ -144,6 +144,9 @@ func DecodeHEVCDecConfRec(data []byte) (DecConfRec, error) {
 		for i := 0; i < numNalus; i++ {
 			naluLength := int(sr.ReadUint16())
 			array.Nalus = append(array.Nalus, sr.ReadBytes(naluLength))
+			if sr.AccError() != nil { // Don't go on for up to 255*65535 NAL units after end of data
+				return hdcr, sr.AccError()
+			}
 		}
 		hdcr.NaluArrays = append(hdcr.NaluArrays, array)
 	}
